@@ -324,6 +324,9 @@ func (s *SencBox) Size() uint64 {
 func (s *SencBox) calcSize() uint64 {
 	totalSize := uint64(boxHeaderSize + 8)
 	perSampleIVSize := uint64(s.GetPerSampleIVSize())
+	if perSampleIVSize == 0 && s.Flags&UseSubSampleEncryption == 0 {
+		return totalSize // No per-sample data (sampleCount is not trusted to be small)
+	}
 	for i := uint32(0); i < s.SampleCount; i++ {
 		totalSize += perSampleIVSize
 		if s.Flags&UseSubSampleEncryption != 0 {
@@ -367,6 +370,9 @@ func (s *SencBox) EncodeSWNoHdr(sw bits.SliceWriter) error {
 		return sw.AccError()
 	}
 	perSampleIVSize := s.GetPerSampleIVSize()
+	if perSampleIVSize == 0 && s.Flags&UseSubSampleEncryption == 0 {
+		return sw.AccError() // No per-sample data (sampleCount is not trusted to be small)
+	}
 	for i := 0; i < int(s.SampleCount); i++ {
 		if perSampleIVSize > 0 {
 			sw.WriteBytes(s.IVs[i])
